@@ -129,3 +129,75 @@ contract(
     ensures=["result.ghost_version == PREV() or "
              "result.ghost_version == NEW()"],
 )
+
+# ---- flow weights ------------------------------------------------------------
+shape("FlowModelIO", {"model": "Any", "weights_file": "Any"},
+      cls="FlowModel")
+W, WO = "weights_file", "weights_file + '.old'"
+contract(
+    FM, "FlowModel.save_weights", props=["C11"], self_shape="FlowModelIO",
+    params={"weights_file": "Path"},
+    requires=[f"not fs0_torn({W}) and not fs0_torn({WO})",
+              f"implies(fs0_complete({W}), fs0_version({W}) == PREV())",
+              f"implies(fs0_absent({W}) and fs0_complete({WO}), "
+              f"fs0_version({WO}) == PREV())"],
+    # the in-place torch.save tears the file the checkpoint names: what must
+    # survive every crash point (incl. the middle of the write) is a
+    # *recoverable* pair: the named file complete, or its .old holding the
+    # weights the last checkpoint was written against
+    crash_invariant=[
+        f"not fs_torn({WO})",
+        f"implies(fs_complete({W}), fs_version({W}) == PREV() or "
+        f"fs_version({W}) == NEW())",
+        f"implies(fs0_complete({W}) or fs0_complete({WO}), "
+        f"fs_complete({W}) or (fs_complete({WO}) and "
+        f"fs_version({WO}) == PREV()))",
+    ],
+    modifies=["self.weights_file"],
+    ensures=[f"fs_complete({W}) and fs_version({W}) == NEW()"],
+)
+
+PF = "nessai/proposal/flowproposal.py"
+shape("FlowModelAbs", {"ghost_loaded": "Int"}, methods={
+    "reload_weights": Contract(
+        "<abstract>", "FlowModelAbs.reload_weights",
+        params={"weights_file": "Path"}, trusted=True,
+        trusted_reason="FlowModel.reload_weights = torch.load + "
+        "load_state_dict: raises if the file is absent or torn, otherwise "
+        "installs the saved weights",
+        modifies=["self.ghost_loaded"],
+        raises={"FileNotFoundError": "fs_absent(weights_file)",
+                "RuntimeError": "fs_torn(weights_file)"},
+        ensures=["self.ghost_loaded == fs_version(weights_file)"]),
+})
+shape("FlowProposalIO", {
+    "flow_config": "Any", "mask": "None", "weights_file": "Path",
+    "flow": "Obj(FlowModelAbs)", "model": "Any",
+}, cls="FlowProposal")
+contract("nessai/proposal/base.py", "Proposal.resume", props=["C11", "C12"],
+         trusted=True, trusted_reason="stores the model",
+         self_shape="FlowProposalIO", params={"model": "Any"},
+         modifies=["self.model"])
+contract(PF, "FlowProposal.initialise", props=["C11", "C12"], trusted=True,
+         trusted_reason="builds the flow object; no file-system effect "
+         "relevant here", self_shape="FlowProposalIO",
+         params={"resumed": "Bool"}, modifies=[])
+SW, SWO = "self.weights_file", "self.weights_file + '.old'"
+contract(
+    PF, "FlowProposal.resume", props=["C11"], self_shape="FlowProposalIO",
+    params={"model": "Any", "flow_config": "Any", "weights_file": "None"},
+    requires=[
+        # any state a kill during save_weights can leave behind
+        f"not fs_torn({SWO})",
+        f"implies(fs_complete({SW}), fs_version({SW}) == PREV() or "
+        f"fs_version({SW}) == NEW())",
+        f"fs_complete({SW}) or (fs_complete({SWO}) and "
+        f"fs_version({SWO}) == PREV())",
+    ],
+    modifies=["self.flow_config", "self.model", "self.flow"],
+    replay={"module": "replay.c11_crash", "func": "weights_recovery_replay"},
+    # never raises from such a state and installs complete weights: those the
+    # checkpoint was written against, or the newer complete ones
+    ensures=["self.flow.ghost_loaded == PREV() or "
+             "self.flow.ghost_loaded == NEW()"],
+)
